@@ -106,8 +106,9 @@ def c10_prefix(sc, base):
 # ------------------------------------------------------------------ C11: order of events, way of adding
 
 
-def c11_order(sc, base, seed):
+def c11_order(sc, base, seed, pid="C11"):
     out = []
+    out += _late_registration(sc, base, seed, pid)
     if len(sc["events"]) >= 2:
         tw = copy.deepcopy(sc)
         random.Random(seed).shuffle(tw["events"])
@@ -115,12 +116,12 @@ def c11_order(sc, base, seed):
             tw["events"] = list(reversed(tw["events"]))
         b = run_records(tw)
         q = 10.0 ** -(int(np.log10(sc["model"]["monetary_factor"])) + 1)
-        out += cmp_records("C11", base, b, "events added in another order", rtol=1e-9, atol_scale=1e-9, extra_abs=0.0)
+        out += cmp_records(pid, base, b, "events added in another order", rtol=1e-9, atol_scale=1e-9, extra_abs=0.0)
     for mode in ("ctor", "list"):
         tw = copy.deepcopy(sc)
         tw["sim"]["events_mode"] = mode
         b = run_records(tw)
-        out += cmp_records("C11", base, b, f"events passed via {mode} instead of one by one")
+        out += cmp_records(pid, base, b, f"events passed via {mode} instead of one by one")
     # events registered while the simulation is already running (before any of them occurs): the first ones up front,
     # the others after a few steps, through add_event / add_events
     if sc["events"] and "error" not in base:
@@ -157,7 +158,66 @@ def c11_order(sc, base, seed):
                 b["columns"] = list(sim.production_realised.columns)
             except Exception as e:
                 b = {"error": f"{type(e).__name__}: {e}"}
-            out += cmp_records("C11", base, b, f"some events registered after {j} steps (before any occurrence) instead of up front", rtol=1e-9, atol_scale=1e-9)
+            out += cmp_records(pid, base, b, f"some events registered after {j} steps (before any occurrence) instead of up front", rtol=1e-9, atol_scale=1e-9)
+    return out
+
+
+def c11_order_c10(sc, base, seed):
+    return _late_registration(sc, base, seed, "C10")
+
+
+def _late_registration(sc, base, seed, pid):
+    """the event that occurs last is announced while earlier events are already under way (after they left the pending
+    status, before its own occurrence), through add_events([..]) or add_event: same run as when all are known up front"""
+    out = []
+    if len(sc["events"]) < 2 or "error" in base:
+        return out
+    dt = int(sc["model"].get("dt", 1))
+    order = sorted(range(len(sc["events"])), key=lambda i: sc["events"][i]["occ"])
+    last = order[-1]
+    occ_first, occ_last = sc["events"][order[0]]["occ"], sc["events"][last]["occ"]
+    # steps are taken at times 0, dt, 2dt, ...; an event acts at the first step whose time is >= its occurrence
+    lo = -(-occ_first // dt) + 1           # number of steps after which the first event has started
+    hi = (occ_last - 1) // dt              # number of steps whose times are all < the last occurrence
+    if lo > hi:
+        return out
+    rng = random.Random(seed + 23)
+    j = rng.randint(lo, hi)
+    via = "not reached"
+    try:
+        kw = dict(n_temporal_units_to_sim=sc["T"], register_stocks=sc["sim"].get("register_stocks", False))
+        sim = Simulation(scen.build_model(sc["table"], sc["model"]), **kw)
+        evs = [scen.build_event(e) for e in sc["events"]]
+        for i, ev_ in enumerate(evs):
+            if i != last:
+                sim.add_event(ev_)
+        crashed = False
+        for _ in range(j):
+            if sim.next_step() == 1:
+                crashed = True
+                break
+        if not crashed:
+            via = rng.choice(["add_events", "add_events", "add_event"])
+            if via == "add_events":
+                sim.add_events([evs[last]])
+            else:
+                sim.add_event(evs[last])
+            for _ in range(j * dt, sc["T"], dt):
+                if sim.next_step() == 1:
+                    crashed = True
+                    break
+        sim.has_crashed = crashed
+        sim.n_temporal_units_simulated = sim.current_temporal_unit
+        b = {r: getattr(sim, r).to_numpy(dtype=float).copy() for r in RECORDS}
+        b["n"] = int(sim.n_temporal_units_simulated)
+        b["crashed"] = bool(crashed)
+        b["columns"] = list(sim.production_realised.columns)
+    except Exception as e:
+        b = {"error": f"{type(e).__name__}: {e}"}
+    # (the base run registers the events in scenario order, this one registers the last-occurring one last: compare as
+    #  for another order of registration)
+    out += cmp_records(pid, base, b, f"the event occurring last announced after {j} steps, while earlier events are under way ({via})",
+                       rtol=1e-9, atol_scale=1e-9)
     return out
 
 
@@ -300,6 +360,25 @@ def c18_orders(sc, seed):
         outs.append(run_records(tw))
     out += cmp_records("C18", outs[0], outs[1], "alt vs noalt under a uniform capacity loss of every supplier of an input",
                        rtol=1e-8, atol_scale=1e-9)
+    # an unequal, small capacity loss that fades out slowly (per-step change of the capacity ratio far below 1e-5):
+    # once it is over every supplier is back at the same relative capacity and alt orders are noalt orders again
+    if rng.random() < 0.35 and sc["table"]["m"] >= 2:
+        outs = []
+        r0 = rng.choice(regs)
+        ev2 = {"type": "arbitrary", "occ": 2, "dur": 1, "name": None, "impact": {f"{r0}|{ssec}": rng.choice([0.002, 0.004])},
+               "recovery_tau": 420, "curve": "linear"}
+        for ot in ("alt", "noalt"):
+            tw = copy.deepcopy(sc)
+            tw["events"] = [ev2]
+            tw["T"] = 450
+            tw["model"].pop("dt", None)
+            tw["model"]["order_type"] = ot
+            tw["model"]["alpha_max"] = tw["model"]["alpha_base"]
+            tw["sim"]["save_records"] = []
+            outs.append(run_records(tw))
+        if "error" not in outs[0] and "error" not in outs[1]:
+            out += cmp_records("C18", outs[0], outs[1], "alt vs noalt after a small unequal capacity loss has faded out over 420 steps (all suppliers back at the same relative capacity)",
+                               rtol=1e-7, atol_scale=1e-9, names=["intermediate_demand"], rows_a=range(430, 450), rows_b=range(430, 450))
     # technical coefficients given with 8 decimals (consistent with Z and x within the accepted tolerance only):
     # both variants must still take their supplier shares from the same flows.  Overproduction disabled: such a
     # table is not exactly at rest and the drift of alpha is not what is compared here
@@ -525,3 +604,45 @@ def event_reuse(sc, base, seed, pid="C08"):
 
 def event_reuse_c11(sc, base, seed):
     return event_reuse(sc, base, seed, pid="C11")
+
+
+
+def event_reuse_c09(sc, base, seed):
+    return event_reuse(sc, base, seed, pid="C09")
+
+
+def table_reuse(sc, base, seed, pid="C01"):
+    """the caller's IOSystem object is used for a first model, edited (another balanced table with the same labels) and
+    used again: the second model is the model of the table as it is now (same as from a fresh object holding it)"""
+    out = []
+    try:
+        rng = random.Random(seed + 31)
+        tb1 = copy.deepcopy(sc["table"])
+        tb1.pop("dtype", None)
+        # another balanced table of the same shape: some final demands scaled, output re-balanced by construction
+        f = [rng.choice([0.5, 1.0, 2.0, 3.0]) for _ in tb1["Y"]]
+        if all(v == 1.0 for v in f):
+            f[0] = 2.0
+        tb1["Y"] = [[v * f[i] for v in row] for i, row in enumerate(tb1["Y"])]
+        tb1.pop("x", None)
+        io = scen.build_table(sc["table"])
+        m_first = scen.build_model(sc["table"], sc["model"], io=io)
+        io2 = scen.build_table(tb1)
+        for attr in ("Z", "Y", "x", "A"):
+            if getattr(io2, attr, None) is not None:
+                setattr(io, attr, getattr(io2, attr).copy())
+        m_again = scen.build_model(tb1, sc["model"], io=io)
+        m_fresh = scen.build_model(tb1, sc["model"], io=scen.build_table(tb1))
+    except Exception as e:
+        return out          # (a table the models refuse: nothing to compare)
+    for name in ("X_0", "Z_0", "Y_0", "tech_mat", "inputs_stock", "production", "intermediate_demand", "final_demand"):
+        a, b = np.asarray(getattr(m_again, name), dtype=float), np.asarray(getattr(m_fresh, name), dtype=float)
+        if a.shape != b.shape or not np.array_equal(a, b, equal_nan=True):
+            out.append(viol(pid, 0, f"a model built on a table object that was used before and edited since is not the model of the table as it is now: {name} differs",
+                            worst=float(np.nanmax(np.abs(a - b))) if a.shape == b.shape else None))
+            break
+    return out
+
+
+def table_reuse_c17(sc, base, seed):
+    return table_reuse(sc, base, seed, pid="C17")
